@@ -1,5 +1,5 @@
 import Eav.Model
-import Eav.Props.GenTie
+import Eav.Props.Tie.Globals
 /-!
 # C14 — concurrent validation equals sequential validation
 
